@@ -129,6 +129,28 @@ def observe_leaf(leaf, with_tm: bool):
     return o
 
 
+def canon_leaf(case, leaf, o, ref_names):
+    """a leaf whose graph lists the LNLs in another order than the case's graph (contra_relist): parameters and the
+    transition matrix are brought into the order of the case's graph (names and state labels, not positions, matter)"""
+    if not case.get("contra_relist"):
+        return o
+    want = gen.lnls_of(case["graph"])
+    have = list(leaf.graph.lnls)
+    if have != want:
+        # parameter order of the first leaf (same names): the relisted side creates its LNL arcs in another order
+        rank = {n: k for k, n in enumerate(ref_names)}
+        if sorted(rank) == sorted(p[0] for p in o["params"]):
+            o["params"] = sorted(o["params"], key=lambda p: rank[p[0]])
+    if "tm" in o and have != want and sorted(have) == sorted(want):
+        base = case["graph"]["base"]
+        import itertools
+        idx = {s: k for k, s in enumerate(itertools.product(range(base), repeat=len(have)))}
+        perm = [idx[tuple(s[want.index(l)] for l in have)] for s in itertools.product(range(base), repeat=len(want))]
+        tm = np.asarray(o["tm"], dtype=float)
+        o["tm"] = tm[np.ix_(perm, perm)].tolist()
+    return o
+
+
 def observe(case, m, with_tm=True):
     o = {}
     try:
@@ -136,7 +158,13 @@ def observe(case, m, with_tm=True):
     except Exception as e:  # noqa: BLE001
         o["flat"] = None
         o["flat_err"] = impl.err_enum(e)
-    o["leaves"] = [[name, observe_leaf(leaf, with_tm)] for name, leaf in leaves_of(case, m)]
+    o["leaves"] = []
+    ref = None
+    for name, leaf in leaves_of(case, m):
+        ol = observe_leaf(leaf, with_tm)
+        if ref is None:
+            ref = [p[0] for p in ol["params"]]
+        o["leaves"].append([name, canon_leaf(case, leaf, ol, ref)])
     if case["cls"] == "Midline":
         o["mixing"] = None if m.mixing_param is None else float(m.mixing_param)
         o["midext"] = float(m.midext_prob)
@@ -697,6 +725,8 @@ def new_case(rng, cls, cfg, stream):
 def gen_main(rng, cls, cfg, stream="main"):
     case = new_case(rng, cls, cfg, stream)
     state = {"mods": {}, "dists": copy.deepcopy(case["dists"]), "max_time": case["max_time"]}
+    if cls == "Bilateral" and cfg.get("symL") and len(gen.lnls_of(case["graph"])) >= 2 and rng.random() < 0.4:
+        case["contra_relist"] = True
     n = rng.randint(1, 8)
     while len([o for o in case["ops"] if o.get("observe", True)]) < n:
         if rng.random() < 0.62:
